@@ -29,7 +29,7 @@ func (n *Node) dump(b *strings.Builder) {
 	case "id":
 		b.WriteString("id:" + n.Val)
 	case "num":
-		b.WriteString("num:" + n.Val)
+		b.WriteString("num:" + CanonNum(n.Val))
 	case "str":
 		b.WriteString("str:" + strconv.Quote(n.Val))
 	case "kw":
